@@ -467,6 +467,39 @@ func cancelPublishes() string {
 	return fmt.Sprint(<-out + <-out)
 }
 
+type failBox struct {
+	failed chan struct{}
+	err    string
+}
+
+// closePublishes: a plain field written before close(ch) and read after a receive from ch,
+// the receive sitting in a select, in a plain expression and behind a directional view of
+// the channel: one channel, whatever type it is seen through.
+func closePublishes() string {
+	b := &failBox{failed: make(chan struct{})}
+	var ro <-chan struct{} = b.failed
+	out := make(chan string, 3)
+	go func() {
+		select {
+		case <-b.failed:
+			out <- b.err
+		}
+	}()
+	go func() {
+		<-ro
+		out <- b.err
+	}()
+	go func() {
+		_, ok := <-b.failed
+		out <- fmt.Sprint(b.err, ok)
+	}()
+	b.err = "x"
+	close(b.failed)
+	r := []string{<-out, <-out, <-out}
+	sort.Strings(r)
+	return strings.Join(r, ",")
+}
+
 // Cases lists every self-test program with its schedule-independent result.
 var Cases = []Case{
 	{"mutexCounter", mutexCounter, "30"},
@@ -486,5 +519,6 @@ var Cases = []Case{
 	{"onceValueBlocking", onceValueBlocking, "28 1p<nil>"},
 	{"poolAndSyncMap", poolAndSyncMap, "12 true"},
 	{"cancelPublishes", cancelPublishes, "11"},
+	{"closePublishes", closePublishes, "x,x,xfalse"},
 	{"contextAfterFunc", contextAfterFunc, "1 true false try over shutdown context canceled"},
 }
